@@ -14,7 +14,8 @@ def conventions(name):
     base = {"fchk": fchk.CONVENTIONS, "molden": molden.CONVENTIONS, "wfn": wfn.CONVENTIONS,
             "horton2": C.HORTON2_CONVENTIONS, "cca": C.CCA_CONVENTIONS}
     if name in base:
-        return base[name]
+        # format tables that lack a shell type (e.g. pure functions in the WFN table) are completed from HORTON2
+        return {**C.HORTON2_CONVENTIONS, **base[name]}
     if name == "revflip":
         # every shell type reversed and every label sign-flipped (a legal but unusual convention)
         out = {}
@@ -112,7 +113,7 @@ def make_wf(ctx, atoms, shells, conv="horton2", mo_kind="restricted", norb=None,
         raise ValueError(mo_kind)
     if symbolic:
         coeffs = ctx.real_array(f"{tag}C", (nb, ncol), lo=-3, hi=3)
-        ener = ctx.real_array(f"{tag}E", (ncol,), lo=-50, hi=50) if energies else None
+        ener = ctx.real_array(f"{tag}E", (ncol,), lo=-5000, hi=5000) if energies else None
     else:
         if ctx.mode == "conc" and sym:
             coeffs = ctx.real_array(f"{tag}C", (nb, ncol))
